@@ -191,6 +191,14 @@ func main() {
 		runChainCmd(os.Args[2:])
 	case "ante":
 		runAnteCmd(os.Args[2:])
+	case "openings":
+		runOpeningsCmd(os.Args[2:])
+	case "tokenid":
+		runTokenCmd(os.Args[2:])
+	case "entries":
+		runEntriesCmd(os.Args[2:])
+	case "cache":
+		runCacheCmd(os.Args[2:])
 	case "inventory":
 		runInventoryCmd(os.Args[2:])
 	default:
